@@ -250,7 +250,7 @@ def leak_rules(prog, rep, only_files=None):
             inst = "%s in %s" % (s.text[:60], f.name)
             if s.pos in badpos:
                 a, p, d = badpos[s.pos]
-                rep.bad("NULLCHK", inst, s.where, "%s is dereferenced at %s before its acquisition was tested" % (show(p), d.loc),
+                rep.bad("NULLCHK", inst, s.where, "%s is dereferenced at %s where it may be NULL: its acquisition has not been tested, or has been and failed on this path" % (show(p), d.loc),
                         function=f.name, construct="nullchk:" + show(p))
             else:
                 rep.ok("NULLCHK", inst, s.where, "tested before any dereference")
